@@ -162,9 +162,11 @@ Chars(str) == CASE str = "" -> <<>> [] str = "ab" -> <<97, 98>> [] str = "AB" ->
                 [] str = "ab<8195>cd" -> <<97, 98, 8195, 99, 100>> [] str = "<160>ab" -> <<160, 97, 98>>
                 \* KELVIN SIGN: equal to "k" under Unicode case folding, not under the ASCII folding of the i flag
                 [] str = "<8490>" -> <<8490>> [] str = "k" -> <<107>> [] str = " " -> <<32>>
+                \* characters that a serializer must escape: a"b  a\b  a<LF>b
+                [] str = "a<34>b" -> <<97, 34, 98>> [] str = "a<92>b" -> <<97, 92, 98>> [] str = "a<10>b" -> <<97, 10, 98>>
 AttrVals    == {"", "ab", "AB", "ab-cd", "ab cd", " ab", "a  b", "ab-", "cd ab", "aB",
-                "ab<9>cd", "ab<10>cd", "ab<12>cd", "ab<13>cd", "ab<11>cd", "ab<160>cd", "ab<8195>cd", "<160>ab", "<8490>", " "}
-AttrNeedles == {"", "ab", "AB", "b", "cd", "ab cd", "ab-", "k", " "}
+                "ab<9>cd", "ab<10>cd", "ab<12>cd", "ab<13>cd", "ab<11>cd", "ab<160>cd", "ab<8195>cd", "<160>ab", "<8490>", " ", "a<34>b", "a<92>b", "a<10>b"}
+AttrNeedles == {"", "ab", "AB", "b", "cd", "ab cd", "ab-", "k", " ", "a<34>b", "a<92>b", "a<10>b"}
 AttrTree(v) == [n |-> 2, par |-> <<0, 1>>, kind |-> <<"elem", "elem">>, tag |-> <<"html", "p">>, cls |-> <<FALSE, FALSE>>,
                 id |-> <<FALSE, FALSE>>, hasattr |-> <<FALSE, v # "absent">>, attr |-> <<<<>>, IF v = "absent" THEN <<>> ELSE Chars(v)>>,
                 blank |-> <<FALSE, FALSE>>]
